@@ -209,19 +209,23 @@ def leafPrepare (name : String) (cstr : String) (swapped : Bool) : PyM LeafPrep 
 def itemConstraintString (op value : String) (swapped : Bool) : String :=
   if swapped then "\"" ++ value ++ "\" " ++ op else op ++ value
 
-/-- `_quoted(value)` (repo fix: a marker string has no escapes, so a value containing a double quote is written in
-single quotes): the quote character used for `value` -/
-def quoteOf (value : String) : String := if value.toList.contains '"' then "'" else "\""
+/-- `_quoted(value)` (repo fixes 3046ca3, 7b51c5a): the value is written between the quotes it can stand between
+unchanged — single quotes when it holds a double quote or a backslash and no single quote, double quotes otherwise -/
+def quoteOf (value : String) : String :=
+  if !value.toList.contains '\'' && (value.toList.contains '"' || value.toList.contains '\\') then "'" else "\""
 
-theorem quoteOf_dq {v : String} (h : ∀ c ∈ v.toList, c ≠ '"') : quoteOf v = "\"" := by
+theorem quoteOf_dq {v : String} (h : ∀ c ∈ v.toList, c ≠ '"' ∧ c ≠ '\\') : quoteOf v = "\"" := by
   unfold quoteOf
-  have : v.toList.contains '"' = false := by
+  have h1 : v.toList.contains '"' = false := by
     cases hc : v.toList.contains '"' with
     | false => rfl
-    | true =>
-      have := List.contains_iff_mem.mp hc
-      exact absurd rfl (h _ this)
-  rw [if_neg (by rw [this]; exact Bool.false_ne_true)]
+    | true => exact absurd rfl (h _ (List.contains_iff_mem.mp hc)).1
+  have h2 : v.toList.contains '\\' = false := by
+    cases hc : v.toList.contains '\\' with
+    | false => rfl
+    | true => exact absurd rfl (h _ (List.contains_iff_mem.mp hc)).2
+  rw [h1, h2]
+  simp
 
 /-- either quote character is a one-character string that is neither a dot nor a letter -/
 theorem quoteOf_cases (v : String) : quoteOf v = "\"" ∨ quoteOf v = "'" := by
